@@ -1294,6 +1294,20 @@ impl Analyzable for TxDef {
             }
         }
 
+        // the same holds for parameters: the IR has one key for `Quantity` and `quantity`
+        for (i, param) in self.parameters.parameters.iter().enumerate() {
+            let name = param.name.value.to_lowercase();
+
+            let taken = self.parameters.parameters[..i]
+                .iter()
+                .any(|x| x.name.value.to_lowercase() == name);
+
+            if taken {
+                duplicates = duplicates
+                    + AnalyzeReport::from(Error::DuplicateDefinition(param.name.value.clone()));
+            }
+        }
+
         let final_scope = Rc::new(scope);
 
         let locals = self.locals.analyze(Some(final_scope.clone()));
